@@ -405,6 +405,12 @@ def content_segment(op, sid, kwargs, eff, omit_detected_le=False):
         options['mimetype'] = kwargs.get('mimetype')
     elif op == 'meta':
         texts = json_texts(kwargs['metadata'])
+
+        if le == 'dos':
+            # declared DOS line endings: the lines of the JSON document end
+            # in CRLF (newlines inside JSON strings are always escaped)
+            texts = [t.replace('\n', '\r\n') for t in texts]
+
         indent = None
         options['format'] = 'json'
     else:
@@ -440,7 +446,8 @@ def content_segment(op, sid, kwargs, eff, omit_detected_le=False):
 
         opts = dict(options, length=len(data))
 
-        if op != 'meta' and not (omit_detected_le and le is None):
+        if (op != 'meta' or le is not None) and \
+                not (omit_detected_le and le is None):
             # (a foreign producer may leave out line_endings when the
             # first line shows it)
             opts['line_endings'] = kind
@@ -535,6 +542,9 @@ def expected_records(program):
         elif op == 'meta':
             rec['content'] = kwargs['metadata']
             opts['format'] = 'json'
+
+            if le is not None:
+                opts['line_endings'] = le
         else:
             content = kwargs['content']
             lf, crlf = nl_bytes('unix', eff), nl_bytes('dos', eff)
